@@ -22,6 +22,8 @@
 #include <memory>
 
 using namespace vk;
+static const long double DENORM = std::numeric_limits<double>::denorm_min();
+
 using namespace dsplib;
 
 namespace {
@@ -470,7 +472,7 @@ void stream_run(const Json& c, const Plan& p, Out& o) {
     int k0 = 0;
     long evals = 0;
     double m_apri = 0, m_step = 0;
-    bool stopped = false;
+    bool stopped = false, stopped_underflow = false;
     bool moved_after_unlock = false, was_locked = false;
     const uint64_t bad = c.has("bad") ? c.getu("bad") : 0;
     Rng br(bad);
@@ -510,6 +512,16 @@ void stream_run(const Json& c, const Plan& p, Out& o) {
         for (int i = 0; i < L; ++i) finite &= fin(y[i]) && fin(e[i]);
         for (int j = 0; j < N; ++j) finite &= fin(ca[j]);
         if (!finite) { stopped = true; break; }
+        // ... and normal: once outputs or coefficients have decayed into the underflow range (|v| < 1e-290: an exactly identified
+        // noise-free system makes the error shrink geometrically for ever) products are rounded to the subnormal grid and no relative
+        // error bound applies; the case stops here as well
+        {
+            bool under = false;
+            auto tiny = [](double v) { return v != 0 && std::fabs(v) < 1e-290; };
+            for (int i = 0; i < L; ++i) under |= tiny(to_cd(y[i]).real()) || tiny(to_cd(y[i]).imag()) || tiny(to_cd(e[i]).real()) || tiny(to_cd(e[i]).imag());
+            for (int j = 0; j < N; ++j) under |= tiny(to_cd(ca[j]).real()) || tiny(to_cd(ca[j]).imag());
+            if (under) { stopped_underflow = true; break; }
+        }
         // (a) e == d - y, bit for bit
         for (int i = 0; i < L; ++i) {
             const T want_e = df[i] - y[i];
@@ -531,7 +543,7 @@ void stream_run(const Json& c, const Plan& p, Out& o) {
                 acc = acc + cj_ * xj;
                 bound += ld(mag(cj_)) * ld(mag(xj));
             }
-            const ld tol = 4 * ld(N) * EPS * bound;
+            const ld tol = 4 * ld(N) * EPS * bound + 4 * ld(N) * DENORM;   // + underflow: below 2.2e-308 results are rounded to the 4.9e-324 grid, not relatively
             const cd yy = to_cd(y[i]);
             const ld err = std::hypot(ld(yy.real()) - re_of(acc), ld(yy.imag()) - im_of(acc));
             ++evals;
@@ -586,7 +598,7 @@ void stream_run(const Json& c, const Plan& p, Out& o) {
                     const S cbj = mkS<S>(to_cd(cb[j]));
                     const S upd = sc(ee * cj(xj), g);
                     const S ref = sc(cbj, ld(p.leak)) + upd;
-                    const ld tol = (16 + 4 * ld(N)) * EPS * (ld(mag(cbj)) * std::fabs(ld(p.leak)) + ld(mag(upd)));
+                    const ld tol = (16 + 4 * ld(N)) * EPS * (ld(mag(cbj)) * std::fabs(ld(p.leak)) + ld(mag(upd))) + 16 * DENORM;
                     const cd got = to_cd(ca[j]);
                     const ld err = std::hypot(ld(got.real()) - re_of(ref), ld(got.imag()) - im_of(ref));
                     if (tol > 0) m_step = std::max(m_step, double(err / tol));
@@ -608,6 +620,7 @@ void stream_run(const Json& c, const Plan& p, Out& o) {
     if (moved_after_unlock) o.label("resume-after-unlock:observed");
     if (refused) o.label("refused-calls-between-frames");
     if (stopped) o.label("stopped:non-finite values (diverged recursion)");
+    if (stopped_underflow) o.label("stopped:values decayed into the underflow range");
     if (nontrivial_rule(p)) o.nontrivial(case_key(c, p));
 }
 
@@ -675,7 +688,7 @@ void recursion_run(const Json& c, const Plan& p, Out& o) {
             const cd gy = to_cd(y[i]), ge = to_cd(e[i]);
             const ld ey = std::hypot(ld(gy.real()) - re_of(ry[size_t(k)]), ld(gy.imag()) - im_of(ry[size_t(k)]));
             const ld ee = std::hypot(ld(ge.real()) - re_of(re[size_t(k)]), ld(ge.imag()) - im_of(re[size_t(k)]));
-            const ld tol = rel * ymax;
+            const ld tol = rel * ymax + 8 * ld(N) * DENORM;
             if (tol > 0) m_y = std::max(m_y, double(std::max(ey, ee) / tol));
             if (!(ey <= tol) || !(ee <= tol)) {
                 o.fail(an + (p.cx ? ":recursion-output/complex" : ":recursion-output/real"),
@@ -689,7 +702,7 @@ void recursion_run(const Json& c, const Plan& p, Out& o) {
         for (int j = 0; j < N; ++j) {
             const cd g = to_cd(ca[j]);
             const ld ec = std::hypot(ld(g.real()) - re_of(rc[fi][size_t(j)]), ld(g.imag()) - im_of(rc[fi][size_t(j)]));
-            const ld tol = rel * cmax;
+            const ld tol = rel * cmax + 8 * ld(N) * DENORM;
             if (tol > 0) m_c = std::max(m_c, double(ec / tol));
             if (!(ec <= tol)) {
                 o.fail(an + (p.cx ? ":recursion-coeffs/complex" : ":recursion-coeffs/real"),
